@@ -256,7 +256,10 @@ pub fn setup_inv(t: &mut Toks) -> Result<InvCase, String> {
         if dots {
             cfg.compatflags.insert(hooks::CompatFlag::ComposeNodeNameLiteralDots);
         }
-        cfg.set_ignore_class_notfound_regexp(patterns)?;
+        // the default pattern list is left as the constructor made it (the setter recompiles the set)
+        if patterns != vec![".*".to_string()] {
+            cfg.set_ignore_class_notfound_regexp(patterns)?;
+        }
         Reclass::new_from_config(cfg)
     })();
     Ok(InvCase {
